@@ -47,6 +47,7 @@ type Prog struct {
 	modFuncs  []*ssa.Function
 	allFuncs  map[*ssa.Function]bool
 	facts     map[*ssa.Function]map[*ssa.BasicBlock]FactSet
+	edgeOut   map[*ssa.Function]func(*ssa.BasicBlock, int) FactSet
 	callersOf map[*ssa.Function][]ssa.CallInstruction
 }
 
